@@ -992,6 +992,58 @@ func intConst(v ssa.Value) (int64, bool) {
 // lenAtLeast: the facts holding at b establish len(x) >= need.
 func lenAtLeast(fi *FactInfo, b *ssa.BasicBlock, x ssa.Value, need int64) bool {
 	same := func(a ssa.Value) bool { return a == x || fi.canon(a) == fi.canon(x) }
+	// the small lengths excluded one by one (switch { case len == 0: …; case len == 1: …; default: here }),
+	// together with the best lower bound known
+	if need > 0 && need <= 8 {
+		excluded := map[int64]bool{}
+		lower := int64(0)
+		for f := range fi.At(b) {
+			bo, isB := f.V.(*ssa.BinOp)
+			if f.Kind != "true" || !isB {
+				continue
+			}
+			l, r, op := bo.X, bo.Y, bo.Op
+			if _, isK := intConst(l); isK {
+				l, r = r, l
+				switch op {
+				case token.LSS:
+					op = token.GTR
+				case token.LEQ:
+					op = token.GEQ
+				case token.GTR:
+					op = token.LSS
+				case token.GEQ:
+					op = token.LEQ
+				}
+			}
+			lx := lenOf(l)
+			k, isK := intConst(r)
+			if lx == nil || !isK || !same(lx) {
+				continue
+			}
+			switch {
+			case (op == token.EQL && !f.Pol) || (op == token.NEQ && f.Pol):
+				excluded[k] = true
+			case (op == token.GEQ && f.Pol) || (op == token.LSS && !f.Pol):
+				if k > lower {
+					lower = k
+				}
+			case (op == token.GTR && f.Pol) || (op == token.LEQ && !f.Pol):
+				if k+1 > lower {
+					lower = k + 1
+				}
+			}
+		}
+		all := true
+		for v := lower; v < need; v++ {
+			if !excluded[v] {
+				all = false
+			}
+		}
+		if all {
+			return true
+		}
+	}
 	return fi.HoldsWhere(b, func(f Fact) bool {
 		if f.Kind != "true" {
 			return false
